@@ -196,6 +196,15 @@ def main():
 
     TAM.set_address_for_tens = classmethod(set_address_for_tens)
 
+    def _settings():
+        # interpreter-wide settings other than the recursion limit: numpy error state and print options, warnings filters, locale
+        import locale
+        import warnings
+        import numpy as np
+        po = {k: v for k, v in np.get_printoptions().items() if k != "formatter"}
+        return _h(repr((sorted(np.geterr().items()), sorted(po.items(), key=str), [str(f[:4]) for f in warnings.filters],
+                        locale.setlocale(locale.LC_ALL), sys.getswitchinterval(), sys.flags.hash_randomization)).encode())
+
     def project():
         wc = WC.CompressedWeightCache.cache
         enc = sorted(_h(getattr(t, "buffer", b"") or b"") for t in wc.values())
@@ -208,7 +217,8 @@ def main():
                 "ddb": [len(DebugDatabase._sourceTable), len(DebugDatabase._optimisedTable),
                         len(DebugDatabase._queueTable), len(DebugDatabase._streamUID)],
                 "arch_cache": len(AF.default_arch_cache), "conflict_memo": cf.currsize,
-                "rng": _h(repr(random.getstate()).encode())}
+                "rng": _h(repr(random.getstate()).encode()),
+                "rl": sys.getrecursionlimit(), "envd": _settings()}
 
     kept = {}           # model path -> the bytearray the caller keeps (containers shared / mvrw)
     pristine = {}       # model path -> digest of the model when this process first read it
